@@ -747,7 +747,11 @@ func init() {
 			return types, extra
 		}
 	}
-	profileFns["append"] = withExtremes(driveAppend)
+	profileFns["append"] = withExtremes(func(s *shardSet, rng *rand.Rand, thorough bool) ([]string, map[string]int) {
+		types, extra := driveAppend(s, rng, thorough)
+		driveRaggedAppend(s, rng, thorough)
+		return types, extra
+	})
 	profileFns["appendsample"] = withExtremes(driveAppendSample)
 	profileFns["io"] = withExtremes(driveIO)
 	profileFns["channel"] = withExtremes(driveChannel)
